@@ -180,6 +180,22 @@ def predicate(sc, ev):
             outcomes.setdefault(e[4], []).append(('resp', e[6]))
         elif e[1] == 'send_error' and e[2] == 'SubmitSm':
             outcomes.setdefault(e[3], []).append(('error', e[4]))
+    # C14 at session level: a request the SMSC never answers is reported as timed out, not before its time-to-live and
+    # not later than the next keep-alive probe after it (plus what the hooks take)
+    if not sc.get('drops') and not sc.get('stalls'):
+        for m in sc['msgs']:
+            if m['react'] != 'silent' or m['seg']:
+                continue
+            seqs = [q for q, lg in seq_log.items() if lg == m['log']]
+            t_put = [e[0] for e in ev if e[1] == 'put-done' and e[3] in seqs]
+            t_err = [e[0] for e in ev if e[1] == 'send_error' and e[3] == m['log'] and e[4] == 'TimeoutError']
+            if t_put and t_err:
+                age = t_err[0] - t_put[0]
+                if age < TTL - 1e-6:
+                    return 'message %s reported as timed out %.3f s after it was stored, time-to-live %.1f' % (m['log'], age, TTL), None
+                if age > TTL + 2 * 2.0 + 6.0:
+                    return 'message %s reported as timed out only %.3f s after it was stored (time-to-live %.1f, probes every 2 s)' % (
+                        m['log'], age, TTL), None
     for m in sc['msgs']:
         got = outcomes.get(m['log'], [])
         if len(got) != 1:
